@@ -339,3 +339,53 @@ func verifC16ProtoReach() {
 	verifObserve("stored", row.m.Timestamp(), kv.Value()[1], row.m.KeyValuesLength())
 	verifAssert(kv.Value()[1] != s.vals[0], "reach")
 }
+
+// an invalid histogram rejects the metric as a whole, whichever component is not a number the
+// storage can aggregate: NaN or a negative number in min / max / sum / count, in a bucket count or
+// in a bucket bound, an infinite bucket count (the flat form's row builder rejects the same); the
+// converter converts the next, valid metric as a fresh one does.
+func verifC16ProtoHistogramInvalid() {
+	s := &verifProtoSpec{keys: [2]byte{'k', 'l'}, vals: [2]byte{verifNondetByte("val"), verifNondetByte("val")}, nFields: 1, ts: verifRange("ts", 1, 1<<41), histogram: true}
+	s.types[0] = protoMetricsV1.SimpleFieldType_DELTA_SUM
+	s.values[0] = 1
+	s.hv = [3]float64{3, 5, 7}
+	m := verifProtoMetric(s)
+	bad := []float64{math.NaN(), -1, math.Inf(1)}[verifChoose("badValue", 3)]
+	where := verifChoose("component", 7)
+	switch where {
+	case 0:
+		m.CompoundField.Min = bad
+	case 1:
+		m.CompoundField.Max = bad
+	case 2:
+		m.CompoundField.Sum = bad
+	case 3:
+		m.CompoundField.Count = bad
+	case 4:
+		m.CompoundField.Values[0] = bad
+	case 5:
+		m.CompoundField.Values[2] = bad
+	case 6:
+		m.CompoundField.ExplicitBounds[0] = bad
+	}
+	// +Inf is a legitimate maximum / sum / count of a histogram only in theory; what both forms agree
+	// on is asserted: infinite bucket counts are rejected, infinite summary values are left alone
+	if math.IsInf(bad, 1) {
+		verifAssume(where == 4 || where == 5)
+	}
+	rc := verifProtoConverter(s)
+	var row BrokerRow
+	err := rc.ConvertTo(m, &row)
+	verifAssert(err != nil, "a metric whose histogram holds NaN, a negative number or an infinite bucket count is rejected as a whole")
+	var row2, row3 BrokerRow
+	err2 := rc.ConvertTo(verifProtoMetric(s), &row2)
+	err3 := verifProtoConverter(s).ConvertTo(verifProtoMetric(s), &row3)
+	verifAssert(err2 == nil && err3 == nil, "the valid metric is accepted afterwards")
+	if err2 == nil && err3 == nil {
+		var b2, b3 bytes.Buffer
+		_, _ = row2.WriteTo(&b2)
+		_, _ = row3.WriteTo(&b3)
+		verifAssert(bytes.Equal(b2.Bytes(), b3.Bytes()), "the stored row does not depend on tag order nor on what the converter handled before")
+	}
+	verifReach("end")
+}
